@@ -55,6 +55,7 @@ FLAG_ENUMS = [
     ('cryptoparser.tls.rdp:RDPNegotiationResponseFlags', 1, 0, 'LITTLE_ENDIAN'),
     ('cryptoparser.tls.rdp:RDPProtocol', 4, 0, 'LITTLE_ENDIAN'),
     ('vf.props.c11:SyntheticFlag8', 1, 0, 'NETWORK'),
+    ('vf.props.c11:SyntheticFlagComposite', 1, 0, 'NETWORK'),
     ('vf.props.c11:SyntheticFlag32', 4, 0, 'BIG_ENDIAN'),
     ('vf.props.c11:SyntheticFlag32', 2, 16, 'NETWORK'),
 ]
@@ -74,6 +75,15 @@ class SyntheticFlag32(enum.IntEnum):
     H16 = 0x00010000
     H20 = 0x00100000
     H31 = 0x80000000
+
+
+class SyntheticFlagComposite(enum.IntEnum):
+    READ = 0x01
+    WRITE = 0x02
+    READ_WRITE = 0x03
+    EXEC = 0x10
+    ALL = 0x93
+    TOP = 0x80
 
 
 def _lib():
@@ -226,7 +236,8 @@ def _check_flags(case):
         expected_word = word >> shift
         # callers only hand over members that live in the shifted window
         expected = expected_word.to_bytes(size, _endian(order))
-        for arrangement in (members, list(reversed(members)), set(members)):
+        # a member named twice ORs to the same word (the callers hand over lists as well as sets)
+        for arrangement in (members, list(reversed(members)), set(members), members + list(reversed(members))):
             composer = P.ComposerBinary(byte_order=byte_order)
             try:
                 composer.compose_numeric_flags(arrangement, size, shift_right=shift)
@@ -238,6 +249,8 @@ def _check_flags(case):
             except Exception as e:  # pylint: disable=broad-except
                 findings.append(Finding('flags-compose/' + locus, {'members': case['members'], 'error': repr(e)}))
                 break
+        if any(bin(int(m)).count('1') > 1 for m in flags_class):
+            return findings     # a class with composite members has no unique set for a word: compose direction only
         try:
             parser = P.ParserBinary(expected, byte_order=byte_order)
             parser.parse_numeric_flags('f', size, flags_class, shift_left=shift)
@@ -568,7 +581,11 @@ def _shard_flags(arg):
         for finding in check_case(case):
             stats.finding(finding, case)
     stats.sample('flags-compose', case)
-    # parse: raw words (all for 1-byte and 2-byte fields, random for 4)
+    # parse: raw words (all for 1-byte and 2-byte fields, random for 4); a class with composite members (no enum of
+    # the library has one) is used in the compose direction only: the parser maps a word to members one bit pattern
+    # at a time and is not claimed to handle overlapping members
+    if any(bin(int(m)).count('1') > 1 for m in flags_class):
+        return stats
     if size <= 2:
         words = range(1 << (8 * size))
     else:
